@@ -2412,3 +2412,53 @@ def generate_w3jkern(fns, gen_dir, write_if_changed):
     out.append("end\nend Gen\n")
     write_if_changed(os.path.join(gen_dir, "W3jKern.lean"), "\n".join(out))
     return sig
+
+
+# ---------------------------------------------------------------------------------------------------------------------
+# spherical/wigner.py: _rotate (the matrix route of Wigner.rotate) — `row @ block` as a left fold in index order
+# ---------------------------------------------------------------------------------------------------------------------
+def generate_rotmkern(fns, gen_dir, write_if_changed):
+    import copy as _copy
+    wtree = ast.parse(open(os.path.join(REPO, "spherical/wigner.py"), encoding="utf-8").read())
+    fd = find_function(wtree, "_rotate")
+    names = [nfkc(a.arg) for a in fd.args.args]
+    if names != [nfkc(x) for x in ["fₗₘ", "fₗₙ", "ell_min_w", "ell_max_w", "mp_max_w", "ell_min_m", "ell_max_m", "spin_weight_m", "𝔇"]]:
+        raise TranslationError(f"_rotate: signature {names}")
+    body = [s for s in fd.body if not (isinstance(s, ast.Expr) and isinstance(s.value, ast.Constant))]
+    if len(body) != 1 or not isinstance(body[0], ast.For):
+        raise TranslationError("_rotate: expected one `for ell` loop")
+    loop = _copy.deepcopy(body[0])
+    inner = [nfkc(ast.unparse(x)) for x in loop.body]
+    flm, fln, D = names[0], names[1], names[8]
+    Dl = None
+    for t in inner:
+        if t.endswith(".reshape(2 * ell + 1, 2 * ell + 1)"):
+            Dl = t.split(" = ")[0]
+    want = ["i1 = Yindex(ell, -ell, ell_min_m)", "i2 = Yindex(ell, ell, ell_min_m) + 1",
+            f"{Dl} = {D}[WignerDindex(ell, -ell, -ell, ell_min_w):WignerDindex(ell, ell, ell, ell_min_w) + 1]",
+            f"{Dl} = {Dl}.reshape(2 * ell + 1, 2 * ell + 1)",
+            f"for i in range({fln}.shape[0]):\n    {fln}[i, i1:i2] = {flm}[i, i1:i2] @ {Dl}"]
+    if inner != want:
+        raise TranslationError(f"_rotate: loop body {inner}")
+    # the block is the contiguous slice of the flat D array starting at d1, C-order (2ell+1) x (2ell+1): element (k, c) at d1 + k*(2ell+1) + c;
+    # `row @ block` = for each column c the sum over k, accumulated from 0 in index order (one admissible order: BLAS does not fix one)
+    new_inner = ast.parse(
+        "i1 = Yindex(ell, -ell, ell_min_m)\n"
+        "i2 = Yindex(ell, ell, ell_min_m) + 1\n"
+        "d1 = WignerDindex(ell, -ell, -ell, ell_min_w)\n"
+        f"for i in range({fln}_shape0):\n"
+        "    for c_ in range(i2 - i1):\n"
+        "        acc_ = 0j\n"
+        "        for k_ in range(i2 - i1):\n"
+        f"            acc_ = acc_ + {flm}[i, i1 + k_] * {D}[d1 + k_ * (2 * ell + 1) + c_]\n"
+        f"        {fln}[i, i1 + c_] = acc_\n").body
+    loop.body = new_inner
+    fdk = ast.parse(f"def u_rotate({', '.join(names)}, {fln}_shape0):\n    pass\n").body[0]
+    fdk.body = [loop]
+    ast.fix_missing_locations(fdk)
+    k, txt = KTr(fns, {}, set(), fdk, complex_arrays={flm, fln, D}, dims2={flm, fln}).translate(lean_name="u_rotate")
+    out = [FILL_HEADER.format(src="spherical/wigner.py (_rotate)").replace("The kernels that turn the H wedge into results",
+           "The matrix route of `Wigner.rotate`: per ℓ the row of weights times the (2ℓ+1)×(2ℓ+1) block of the flat 𝔇 array (`row @ block`: for each column the sum over the row index, accumulated from 0 in index order — BLAS fixes no order, so at `Float` this is one admissible rounding; over exact reals the order is immaterial)"),
+           "/-- `_rotate`:\n\n" + "\n".join("      " + l for l in nfkc(ast.unparse(body[0])).splitlines()) + " -/\n" + txt, "end\nend Gen\n"]
+    write_if_changed(os.path.join(gen_dir, "RotMKern.lean"), "\n".join(out))
+    return {k.name: [(p, k.kinds[p]) for p in k.params]}
